@@ -34,6 +34,7 @@ type LoopInfo struct {
 	Ordinal int // 1-based, source order
 	Pos     token.Pos
 	End     token.Pos
+	Scope   token.Pos // a position inside the loop body, for resolving identifiers
 	Back    []*ssa.BasicBlock // sources of back edges
 	// filled during execution
 	pre      *State
@@ -82,6 +83,7 @@ type VC struct {
 	lets     map[string]Val
 	specDepth int
 	quants []*quantRec
+	refArr map[string]bool
 	exQuants []*quantRec
 	lastPos token.Pos
 	specQuant bool
@@ -288,22 +290,47 @@ func (vc *VC) cellArrays(a *Addr) (names []string, sorts []string, two bool) {
 		for _, c := range flatten(t) {
 			names = append(names, "F_"+typeKey(a.Root)+p+c.Suffix)
 			sorts = append(sorts, c.Sort)
+			vc.noteRef(names[len(names)-1], c.Ref)
 		}
 	case ABox:
 		p, t := fieldPathName(a.Root, a.Path)
 		for _, c := range flatten(t) {
 			names = append(names, "P_"+typeKey(a.Root)+p+c.Suffix)
 			sorts = append(sorts, c.Sort)
+			vc.noteRef(names[len(names)-1], c.Ref)
 		}
 	case AElem:
 		p, t := fieldPathName(a.Root, a.Path)
 		for _, c := range flatten(t) {
 			names = append(names, "E_"+typeKey(a.Root)+p+c.Suffix)
 			sorts = append(sorts, c.Sort)
+			vc.noteRef(names[len(names)-1], c.Ref)
 		}
 		two = true
 	}
 	return
+}
+
+func (vc *VC) noteRef(name string, ref bool) {
+	if ref {
+		if vc.refArr == nil {
+			vc.refArr = map[string]bool{}
+		}
+		vc.refArr[name] = true
+	}
+}
+
+// refBound: every id stored in a reference-typed heap array was allocated before the point the array value was created.
+func (vc *VC) refBound(name, arr, alloc string) {
+	if !vc.refArr[name] || vc.dry {
+		return
+	}
+	sort := vc.arrays[name]
+	if strings.HasPrefix(sort, "(Array Int (Array") {
+		vc.define(fmt.Sprintf("(forall ((r Int) (i Int)) (! (and (<= 0 (select (select %s r) i)) (<= (select (select %s r) i) %s)) :pattern ((select (select %s r) i))))", arr, arr, alloc, arr))
+	} else if strings.HasPrefix(sort, "(Array Int Int") {
+		vc.define(fmt.Sprintf("(forall ((o Int)) (! (and (<= 0 (select %s o)) (<= (select %s o) %s)) :pattern ((select %s o))))", arr, arr, alloc, arr))
+	}
 }
 
 func (vc *VC) load(st *State, a *Addr) Val {
@@ -722,6 +749,13 @@ func (vc *VC) findLoops() error {
 		}
 		li.Pos = best.Pos()
 		li.End = best.End()
+		li.Scope = best.Pos()
+		switch x := best.(type) {
+		case *ast.ForStmt:
+			li.Scope = x.Body.Lbrace + 1
+		case *ast.RangeStmt:
+			li.Scope = x.Body.Lbrace + 1
+		}
 		for i, s := range stmts {
 			if s == best {
 				li.Ordinal = i + 1
